@@ -21,6 +21,54 @@ def deep_nesting(depths):
     return out
 
 
+def chains():
+    """every construct that may repeat, 0..6 times, in every spelling of its link"""
+    out = []
+    for k in range(0, 7):
+        for link in (" is ", " is not ", " isn't ", " is as high as ", " is lower than ", "'s ", " are "):
+            out.append("say 1" + (link + "1") * k + "\n")
+            out.append("if X" + (link + "2") * k + "\nsay 1\n\n")
+        for link in (" plus ", " minus ", " times ", " over ", " with ", " without ", " of ", " and ", " or ", " nor "):
+            out.append("say X" + (link + "Y") * k + "\n")
+            out.append("say X" + (link + "Y, Z") * k + "\n")
+        for link in (" at 1", " at X", " at \"k\""):
+            out.append("say X" + link * k + "\n")
+            out.append("let X" + link * k + " be 1\n")
+        out.append("build X up" + ", up" * k + "\n")
+        out.append("knock X down" + " down" * k + "\n")
+        out.append("say " + "not " * k + "X\n")
+        out.append("say F taking 1" + ", 2" * k + "\n")
+        out.append("say F taking 1" + " & 2" * k + "\n")
+        out.append("say F taking 1" + ", and 2" * k + "\n")
+        out.append("rock X with 1" + ", 2" * k + "\n")
+        out.append("F takes X" + " and Y" * min(k, 1) + ", Z" * max(k - 1, 0) + "\nsay X\n\n")
+        out.append("say X" + "\nelse" * k + "\n")
+        out.append("if X\nsay 1\n" + "else\nsay 2\n" * k + "\n")
+        out.append("X is " + "a. " * k + "b\n")
+        out.append("X is 5" + "." * k + "\n")
+        out.append("say 1" + "," * k + "\n")
+        out.append("say 1" + "\n" * k + "say 2\n")
+    return out
+
+
+def trailing(rng, limit=None):
+    """a complete statement followed by one more token of every spelling (the fault `one word too many`)"""
+    from . import gen_pairs
+    stmts = ["say X", "put 1 into X", "let X be 1", "X is 5", "build X up", "knock X down", "turn up X", "turn X up", "turn X down", "turn down X",
+             "turn round X", "turn X around", "cut X", "cut X into Y", "cut X into Y with Z", "join X", "cast X", "cast X with 2", "rock X", "rock X with 1",
+             "roll X", "roll X into Y", "listen", "listen to X", "say F taking 1", "F taking 1", "break", "continue", "break it down", "take it to the top",
+             "give back X", "give X back", "return X", "if X", "while X", "until X", "else", "F takes X", "say X at 1", "let X at 1 be 2", "say it",
+             "say 1 is 2", "say not X", "say X plus 1", "say 1, 2", "say \"s\"", "rock X like a stone"]
+    sp = gen_pairs.spellings()
+    out = []
+    for st in stmts:
+        for w in sp:
+            out.append(f"say 0\n{st} {w}\nsay 9\n")
+    if limit is not None and len(out) > limit:
+        out = rng.sample(out, limit)
+    return out
+
+
 def run(chk):
     proved = setup(chk, "C01")
     basesuites.run_uni(chk)
@@ -45,6 +93,7 @@ def run(chk):
             texts += [f"Tommy {kw}{after}hello world\n", f"If true\nMy world at 1 {kw}{after}we'd never\n", f"Tommy {kw}{after}"]
     # every token spelling next to every separator class next to a token spelling, in 32 statement contexts
     texts += gen_pairs.pair_texts(rng, per_cell=1 if quick else 3, limit=9000 if quick else None)
+    texts += chains() + trailing(rng, limit=6000 if quick else None)
     # layout variants of block-structured programs (inserted lines of every kind, line endings, closing by end of file)
     texts += [t for (_, t) in gen_layout.variants(quick, rng)]
     for w in gen_lex.WORDS:
